@@ -81,7 +81,8 @@ fn pick_year(r: &mut Rng, margin: bool) -> i64 {
 /// time of day aimed at the edges that matter here: first/last ns, the first and last 40 s of a day
 /// (the TAI weekday differs from the weekday of the date there), whole seconds, anything
 fn pick_tod(r: &mut Rng) -> i128 {
-    match r.below(14) {
+    match r.below(16) {
+        14 | 15 => super::calendar::tod_field_pattern(r),
         0 | 1 => 0,
         2 | 3 => NPD - 1,
         4 => 1,
